@@ -33,11 +33,12 @@ import (
 	"regexp"
 	"runtime"
 	"runtime/debug"
+	"runtime/metrics"
 	"sort"
 	"strconv"
 	"strings"
 	"sync"
-	"syscall"
+	"sync/atomic"
 	"testing"
 	"time"
 
@@ -421,9 +422,6 @@ func c11BuildBytes(c *kit.Corpus) ([]byte, error) {
 			}
 		}
 		if c11FixTime(data) {
-			if os.Getenv("VERIF_C11_TIMING") != "" {
-				fmt.Fprintf(os.Stderr, "TIMING build tries=%d\n", try+1)
-			}
 			return data, nil
 		}
 	}
@@ -655,19 +653,11 @@ func (e *c11Env) writeDir(data []byte, file string) (string, error) {
 var errC11Deadline = errors.New("a call only returned when its context deadline expired")
 
 func (e *c11Env) serveDir(dir string) ([]c11OpResult, error) {
-	t0 := time.Now()
 	ds, err := search.NewDirectorySearcher(dir)
 	if err != nil {
 		return nil, fmt.Errorf("NewDirectorySearcher: %w", err)
 	}
-	t1 := time.Now()
-	defer func() {
-		t2 := time.Now()
-		ds.Close()
-		if os.Getenv("VERIF_C11_TIMING") != "" {
-			fmt.Fprintf(os.Stderr, "TIMING open=%v battery=%v close=%v\n", t1.Sub(t0), t2.Sub(t1), time.Since(t2))
-		}
-	}()
+	defer ds.Close()
 	out := make([]c11OpResult, len(e.battery))
 	for i := range e.battery {
 		ctx, cancel := context.WithTimeout(context.Background(), e.watchdog)
@@ -730,6 +720,40 @@ func c11Watch(d time.Duration, f func() error) (err error, hung bool) {
 	case <-t.C:
 		return nil, true
 	}
+}
+
+var c11MemGuardOnce sync.Once
+
+// c11StartMemGuard polls the size of the Go heap and calls onExceed once it
+// passes the limit (default 1 GiB). It is started after the set-up (whose
+// shard builders allocate large tables); a healthy case needs a few MiB. It
+// turns an allocation blow-up into a reported case with a stack instead of a
+// bare "fatal error: out of memory".
+func c11StartMemGuard(onExceed func(total uint64)) {
+	c11MemGuardOnce.Do(func() {
+		runtime.GC()
+		limit := uint64(1 << 30)
+		if mb, err := strconv.Atoi(os.Getenv("VERIF_C11_MEMGUARD_MB")); err == nil && mb > 0 {
+			limit = uint64(mb) << 20
+		}
+		go func() {
+			sample := []metrics.Sample{{Name: "/memory/classes/heap/objects:bytes"}}
+			for {
+				time.Sleep(5 * time.Millisecond)
+				metrics.Read(sample)
+				var total uint64
+				for _, s := range sample {
+					if s.Value.Kind() == metrics.KindUint64 {
+						total += s.Value.Uint64()
+					}
+				}
+				if total > limit {
+					onExceed(total)
+					return
+				}
+			}
+		}()
+	})
 }
 
 // c11StuckStacks returns the goroutines that are inside zoekt code.
@@ -865,7 +889,7 @@ func (e *c11Env) run(c c11Case) (o c11Outcome) {
 		op := e.battery[i].Name
 		if r.Err != "" {
 			qerrs++
-			c11Note(c11QueryErrs, c11Digits.ReplaceAllString(c11Trim(r.Err, 80), "N"), op+": "+r.Err)
+			c11Note(c11QueryErrs, c11Digits.ReplaceAllString(strings.SplitN(r.Err, ", name ", 2)[0], "N"), op+": "+r.Err)
 			continue // the whole call failed: there are no results to compare
 		}
 		crashes += r.Crashes
@@ -938,7 +962,7 @@ func (e *c11Env) run(c c11Case) (o c11Outcome) {
 	return o
 }
 
-var c11Digits = regexp.MustCompile(`[0-9]+|/[^ ]*zoekt`)
+var c11Digits = regexp.MustCompile(`[0-9]+`)
 
 func c11Trim(s string, n int) string {
 	if len(s) > n {
@@ -957,16 +981,11 @@ func c11JSON(v any) string {
 // nothing that follows could be trusted.
 func (e *c11Env) record(rec *kit.Recorder, c c11Case) error {
 	rec.Journal(c)
+	c11Current.Store(&c)
 	o := e.run(c)
 	rec.Eval(c11JSON(c), o.NonTrivial, o.Labels...)
 	if o.Hung != "" {
-		err := kit.Fail("hang", "%s", o.Hung)
-		if rec.Judge(c, err) != nil {
-			c11FlushNotes(rec)
-			rec.Flush()
-			fmt.Fprintf(os.Stderr, "C11: %v\ncase: %s\n", err, c11JSON(c))
-			os.Exit(1)
-		}
+		c11ReportAndExit(rec, c, kit.Fail("hang", "%s", o.Hung))
 		return nil
 	}
 	rec.JournalDone()
@@ -975,6 +994,19 @@ func (e *c11Env) record(rec *kit.Recorder, c c11Case) error {
 		return o.Err
 	}
 	return nil
+}
+
+var c11Current atomic.Pointer[c11Case]
+
+// c11ReportAndExit records a violation that leaves the process unusable (a
+// goroutine that spins or allocates without bound) and ends the process.
+func c11ReportAndExit(rec *kit.Recorder, c c11Case, err error) {
+	if rec.Judge(c, err) != nil {
+		c11FlushNotes(rec)
+		rec.Flush()
+		fmt.Fprintf(os.Stderr, "C11: %v\ncase: %s\n", err, c11JSON(c))
+		os.Exit(1)
+	}
 }
 
 func c11FlushNotes(rec *kit.Recorder) {
@@ -1196,6 +1228,12 @@ func TestVerif_C11(t *testing.T) {
 	}
 	rec.Set("base_shards", sums)
 	t.Cleanup(func() { c11FlushNotes(rec) })
+	c11StartMemGuard(func(total uint64) {
+		st := c11StuckStacks()
+		if c := c11Current.Load(); c != nil {
+			c11ReportAndExit(rec, *c, kit.Fail("memory-blowup", "the heap grew to %d MiB while the mutated shard was loaded or searched (a healthy case needs a few MiB); goroutines inside zoekt:\n%s", total>>20, st))
+		}
+	})
 	if rec.Thorough() && os.Getenv("VERIF_REPLAY") == "" {
 		c11Exhaustive(t, rec, e)
 	}
@@ -1245,19 +1283,17 @@ func c11FuzzCase(e *c11Env, prog []byte) c11Case {
 
 func FuzzVerifC11(f *testing.F) {
 	log.SetOutput(io.Discard)
-	// A no-progress loop allocates until the machine is out of memory; make
-	// that the death of this process only (the driver applies ulimit -v to the
-	// rapid run but not to fuzz workers).
-	lim := syscall.Rlimit{Cur: 6 << 30, Max: 6 << 30}
-	var cur syscall.Rlimit
-	if syscall.Getrlimit(syscall.RLIMIT_AS, &cur) == nil && (cur.Cur == ^uint64(0) || cur.Cur > lim.Cur) {
-		lim.Max = cur.Max
-		_ = syscall.Setrlimit(syscall.RLIMIT_AS, &lim)
-	}
 	e, err := c11GetEnv()
 	if err != nil {
 		f.Fatalf("C11 harness set-up failed: %v", err)
 	}
+	// A no-progress loop allocates until the machine is out of memory, and the
+	// driver applies no ulimit to fuzz workers (RLIMIT_AS set from inside makes
+	// the workers of the fuzzing engine fail to start): watch the heap instead.
+	c11StartMemGuard(func(total uint64) {
+		fmt.Fprintf(os.Stderr, "C11 memory blow-up: %d MiB\n%s\n", total>>20, c11StuckStacks())
+		os.Exit(3)
+	})
 	f.Add([]byte{0, 0x80, 0, 0, 3, 0, 0, 0, 0})             // truncate the TOC pointer
 	f.Add([]byte{1, 0x81, 0, 0, 12, 7, 0, 0, 0})            // flip a bit near the end
 	f.Add([]byte{2, 0x82, 0, 1, 0, 8, 0, 0, 0})             // 0xFF run in the TOC
